@@ -45,9 +45,9 @@ def handleWF : Handler := fun op args =>
   | "c06.setval", [.list vs, .list hs] => do
     let vs ← vs.mapM Value.ofSexp
     let hs ← hs.mapM Sexp.decInt
-    pure (resTag (fun v => toString v.toSexp) (Value.setVal vs hs))
+    pure (resTag (fun v => toString v.toSexp) (Value.setValH vs hs))
   | "c06.mark", [v, m] => do
-    pure (toString ((← Value.ofSexp v).mark (← Sexp.decStr m)).toSexp)
+    pure (toString ((← Value.ofSexp v).mark1 (← Sexp.decStr m)).toSexp)
   | "c06.asstring", [v] => do
     pure (resTag (fun s => toString (Sexp.encStr s)) (← Value.ofSexp v).asString)
   | "c06.lengthint", [v] => do
